@@ -223,11 +223,12 @@ class Fxp():
         self.config.update(**kwargs)
 
         # callbacks
-        if self.callbacks is None: self.callbacks = kwargs.pop('callbacks', [])
+        # (explicit arguments take precedence over what was copied from `like` or the template)
+        if self.callbacks is None or 'callbacks' in kwargs: self.callbacks = kwargs.pop('callbacks', [])
 
         # scaling
-        if self.scale is None: self.scale = kwargs.pop('scale', 1)
-        if self.bias is None: self.bias = kwargs.pop('bias', 0)
+        if self.scale is None or 'scale' in kwargs: self.scale = kwargs.pop('scale', 1)
+        if self.bias is None or 'bias' in kwargs: self.bias = kwargs.pop('bias', 0)
         if isinstance(self.scale, np.generic): self.scale = self.scale.item()   # numpy scalars would impose their (narrow) type
         if isinstance(self.bias, np.generic): self.bias = self.bias.item()
         self.scaled = True if self.scale != 1 or self.bias != 0 else False
